@@ -165,12 +165,16 @@ fn part_a(ctx: &mut Ctx) {
 
 #[derive(Debug, Clone)]
 struct CliFault {
-    /// 0 chain a->b->c, 1 fan-in a->{b,c}, 2 unrelated siblings
+    /// 0 chain a->b->c, 1 fan-in a->{b,c}, 2 unrelated siblings, 3 unrelated siblings and the chunk comes from a command
     shape: u8,
     /// which file carries the fault: 0 = a (root), 1 = b, 2 = c
     pos: u8,
-    /// "devfull-output" | "devfull-temp" | "fsize" | "killed-command" | "none"
+    /// "devfull-output" | "fsize-temp" | "fsize" | "fsize-chunk" | "killed-command" | "verify-tampered" | "none"
     kind: String,
+    /// fsize-chunk: byte limit; verify-tampered: index into VERIFY_SPELLINGS
+    param: u64,
+    /// pass --no-trailing-newline
+    no_trailing: bool,
     threads: usize,
     delay: Option<(u64, u64)>,
     big: bool,
@@ -191,6 +195,9 @@ fn cli_files(f: &CliFault) -> Files {
             match f.kind.as_str() {
                 "fsize-temp" => s.push_str("// TXTPP#temp big.tmp\n// a temp body that is much longer than the thirty bytes the file size limit allows\n//\n"),
                 "killed-command" => s.push_str("<!--TXTPP#run printf partial; kill -KILL $$\n"),
+                // one directive result of 20 KB is the *last* thing written to the victim's output
+                // (no tail line for the victim: see below)
+                "fsize-chunk" => s.push_str(if f.shape == 3 { "<!--TXTPP#run cat chunk.inc\n" } else { "<!--TXTPP#include chunk.inc\n" }),
                 _ => {}
             }
         }
@@ -200,13 +207,97 @@ fn cli_files(f: &CliFault) -> Files {
                 s.push_str(&format!("filler line {k} of {n} ....................................\n"));
             }
         }
-        s.push_str(&format!("{n} tail\n"));
+        if !(f.kind == "fsize-chunk" && f.pos as usize == i) {
+            s.push_str(&format!("{n} tail\n"));
+        }
         files.insert(format!("{n}.txtpp"), s.into_bytes());
+    }
+    if f.kind == "fsize-chunk" {
+        let mut c: String = (0..400).map(|k| format!("chunk line {k:04} ....................................\n")).collect();
+        if f.no_trailing {
+            c.pop(); // the chunk itself has no final newline either: nothing at all follows it
+        }
+        files.insert("chunk.inc".into(), c.into_bytes());
     }
     files
 }
 
+/// spellings of a verify invocation: options given before the subcommand belong to the top level
+/// and do not turn the run into anything but a verify
+const VERIFY_SPELLINGS: [&[&str]; 7] = [&["verify"], &["-N", "verify"], &["--needed", "verify"], &["-q", "verify"], &["-n", "verify"], &["-r", "-N", "verify"], &["-j", "2", "--needed", "verify"]];
+
+/// build, tamper with one output, then verify through the CLI in one of the spellings: exit status must be 1
+fn cli_verify_case(ctx: &mut Ctx, f: &CliFault) {
+    let root = ctx.scratch.fresh();
+    materialize(&root, &cli_files(f), &[]);
+    let names = ["a.txt", "b.txt", "c.txt"];
+    let victim = names[f.pos as usize];
+    let inputs: Vec<String> = match f.shape {
+        2 | 3 => vec!["a.txt.txtpp".into(), "b.txt.txtpp".into(), "c.txt.txtpp".into()],
+        _ => vec!["a.txt.txtpp".into()],
+    };
+    let cj = json!({"kind": "cli", "shape": f.shape, "pos": f.pos, "fault": f.kind, "threads": f.threads, "delay": Value::Null, "big": f.big, "param": f.param, "no_trailing": f.no_trailing});
+    let build = RunCfg { base: root.clone(), inputs: inputs.clone(), mode: Mode::Build, threads: f.threads, recursive: false, trailing: true, shell: String::new() };
+    let o = run_cli(&root, &build.cli_args(), &CliOpts::default());
+    ctx.evals += 1;
+    if o.timed_out {
+        ctx.inconclusive(format!("CLI watchdog: {cj}"));
+        ctx.scratch.discard(&root);
+        return;
+    }
+    if o.code != Some(0) {
+        ctx.violation("C04:cli:control-failed", format!("fault-free build failed: {}", o.short()), cj);
+        ctx.scratch.discard(&root);
+        return;
+    }
+    let spelling = VERIFY_SPELLINGS[f.param as usize % VERIFY_SPELLINGS.len()];
+    let mut args: Vec<String> = spelling.iter().map(|x| x.to_string()).collect();
+    args.extend(["-q".to_string(), "-j".to_string(), f.threads.to_string(), "--".to_string()]);
+    args.extend(inputs.iter().cloned());
+    // control: untampered tree verifies
+    let o = run_cli(&root, &args, &CliOpts::default());
+    ctx.count("cli_runs", 2);
+    if !o.timed_out && o.code != Some(0) {
+        ctx.violation("C04:cli:control-failed", format!("`txtpp {}` failed on a freshly built tree: {}", args.join(" "), o.short()), cj.clone());
+    }
+    let vp = root.join(victim);
+    let mut b = std::fs::read(&vp).unwrap_or_default();
+    match f.param / 7 % 3 {
+        0 => b.push(b'!'),
+        1 => {
+            b.pop();
+        }
+        _ => {
+            let k = b.len() / 2;
+            b[k] ^= 1;
+        }
+    }
+    let _ = std::fs::write(&vp, &b);
+    let o = run_cli(&root, &args, &CliOpts::default());
+    ctx.evals += 1;
+    ctx.count("cli_runs", 1);
+    ctx.cover("cli_fault_kinds", &f.kind);
+    ctx.cover("verify_spellings", &spelling.join(" "));
+    ctx.distinct.insert(crate::util::hash_str(&cj.to_string()));
+    if o.timed_out {
+        ctx.inconclusive(format!("CLI watchdog: {cj}"));
+    } else if o.code == Some(0) {
+        ctx.violation("C04:cli:false-success:verify-tampered", format!("`txtpp {}` exited 0 although {victim} was tampered with (shape {}, -j {}): {}", args.join(" "), f.shape, f.threads, o.short()), cj);
+    } else if o.code != Some(1) {
+        ctx.violation("C04:cli:abnormal-exit:verify-tampered", format!("txtpp did not exit with a reported error: {}", o.short()), cj);
+    } else {
+        ctx.count("cli_faults_reported_as_failure", 1);
+        if std::fs::read(&vp).unwrap_or_default() != b {
+            ctx.violation("C04:cli:verify-rewrote-output", format!("`txtpp {}` reported the mismatch but changed {victim}", args.join(" ")), cj);
+        }
+    }
+    ctx.scratch.discard(&root);
+}
+
 fn cli_case(ctx: &mut Ctx, f: &CliFault) {
+    if f.kind == "verify-tampered" {
+        return cli_verify_case(ctx, f);
+    }
     let root = ctx.scratch.fresh();
     materialize(&root, &cli_files(f), &[]);
     let names = ["a.txt", "b.txt", "c.txt"];
@@ -219,6 +310,8 @@ fn cli_case(ctx: &mut Ctx, f: &CliFault) {
         // every output stays below 30 bytes (unrelated siblings): only the temp write can hit the limit
         "fsize-temp" => opts.fsize_limit = Some(30),
         "fsize" => opts.fsize_limit = Some(if f.big { 40_000 } else { 4 }),
+        // the limit falls inside the 20 KB chunk that ends the victim's output
+        "fsize-chunk" => opts.fsize_limit = Some(f.param),
         _ => {}
     }
     if let Some((seed, max)) = f.delay {
@@ -226,15 +319,15 @@ fn cli_case(ctx: &mut Ctx, f: &CliFault) {
     }
     // inputs: by source name / directory (naming the output would resolve the symlink's target)
     let inputs: Vec<String> = match f.shape {
-        2 => vec!["a.txt.txtpp".into(), "b.txt.txtpp".into(), "c.txt.txtpp".into()],
+        2 | 3 => vec!["a.txt.txtpp".into(), "b.txt.txtpp".into(), "c.txt.txtpp".into()],
         _ => vec!["a.txt.txtpp".into()],
     };
-    let cfg = RunCfg { base: root.clone(), inputs, mode: Mode::Build, threads: f.threads, recursive: false, trailing: true, shell: String::new() };
+    let cfg = RunCfg { base: root.clone(), inputs, mode: Mode::Build, threads: f.threads, recursive: false, trailing: !f.no_trailing, shell: String::new() };
     let o = run_cli(&root, &cfg.cli_args(), &opts);
     ctx.evals += 1;
     ctx.count("cli_runs", 1);
     ctx.cover("cli_fault_kinds", &f.kind);
-    let cj = json!({"kind": "cli", "shape": f.shape, "pos": f.pos, "fault": f.kind, "threads": f.threads, "delay": f.delay.map(|d| vec![d.0, d.1]), "big": f.big});
+    let cj = json!({"kind": "cli", "shape": f.shape, "pos": f.pos, "fault": f.kind, "threads": f.threads, "delay": f.delay.map(|d| vec![d.0, d.1]), "big": f.big, "param": f.param, "no_trailing": f.no_trailing});
     if o.timed_out {
         ctx.inconclusive(format!("CLI watchdog: {cj}"));
         ctx.scratch.discard(&root);
@@ -261,19 +354,22 @@ fn cli_case(ctx: &mut Ctx, f: &CliFault) {
 fn part_b(ctx: &mut Ctx) {
     let mut r = StdRng::seed_from_u64(ctx.shard_seed() ^ 0xb);
     let n = ctx.tier.pick(10, 300);
-    let kinds = ["devfull-output", "fsize-temp", "fsize", "killed-command", "none"];
+    let kinds = ["devfull-output", "fsize-temp", "fsize", "killed-command", "none", "fsize-chunk", "verify-tampered"];
     for i in 0..n {
         if !ctx.time_left() {
             break;
         }
         let kind = kinds[(i as usize + ctx.shard as usize) % kinds.len()];
         let f = CliFault {
-            shape: if kind == "fsize-temp" { 2 } else { r.gen_range(0..3) },
+            shape: if kind == "fsize-temp" { 2 } else if kind == "fsize-chunk" && r.gen_bool(0.3) { 3 } else { r.gen_range(0..3) },
             pos: r.gen_range(0..3),
             kind: kind.into(),
             threads: [1, 2, 4, 8][r.gen_range(0..4)],
             delay: if r.gen_bool(0.5) { Some((r.gen::<u32>() as u64, 2000)) } else { None },
             big: kind == "fsize" && r.gen_bool(0.5),
+            // chunk: limits below, at and above the 8 KiB buffer boundary, always inside the chunk
+            param: if kind == "fsize-chunk" { [100u64, 4096, 8191, 8192, 8193, 8300, 12_288, 16_384, 19_000][r.gen_range(0..9)] + r.gen_range(0..3) * 7 } else { r.gen_range(0..21) },
+            no_trailing: kind == "fsize-chunk" && r.gen_bool(0.6),
         };
         cli_case(ctx, &f);
     }
@@ -294,6 +390,8 @@ fn replay(ctx: &mut Ctx, v: &Value) {
             threads: v["threads"].as_u64().unwrap_or(1) as usize,
             delay: v["delay"].as_array().and_then(|a| Some((a.first()?.as_u64()?, a.get(1)?.as_u64()?))),
             big: v["big"].as_bool().unwrap_or(false),
+            param: v["param"].as_u64().unwrap_or(0),
+            no_trailing: v["no_trailing"].as_bool().unwrap_or(false),
         };
         for _ in 0..10 {
             cli_case(ctx, &f);
